@@ -3,6 +3,9 @@ From Coq Require Import ZArith String List Ascii Bool Lia.
 From FV.C04 Require Import Text Model.
 Import ListNotations.
 
+Ltac norm_app := repeat rewrite <- app_assoc; simpl; repeat rewrite <- app_assoc;
+  rewrite ?app_nil_r; reflexivity.
+
 (* ------------------------------------------------------------ list lemmas *)
 Lemma slice_mid {A} (F a b c : list A) i j :
   F = a ++ b ++ c -> i = length a -> j = i + length b -> slice i j F = b.
@@ -342,4 +345,588 @@ Section UCDProofs.
     unfold unit_suffix. change (S ", unit_unknown") with (","%char :: S " unit_unknown").
     rewrite before_comma_name by exact H. reflexivity.
   Qed.
+
+  (* ------------------------------------------------------------ elements *)
+  Lemma last_char_some : forall t : str, t <> [] -> exists c, last_char t = Some c.
+  Proof.
+    induction t as [|a t IH]; intros H; [contradiction|].
+    destruct t as [|b t]; [exists a; reflexivity|].
+    destruct IH as [c Hc]; [discriminate|]. exists c. exact Hc.
+  Qed.
+
+  Lemma type_ok_fo : forall t, type_ok ETYPES t = true ->
+    fo_name t = Ok (spec_name t) /\ (forall c, fo_conn t c = spec_conn t c)
+    /\ tokenb (spec_name t) = true.
+  Proof.
+    intros t H. unfold type_ok in H. rewrite !andb_true_iff in H.
+    destruct H as [[_ Htok] Hor].
+    destruct (str_eqb t (S "tet2")) eqn:E.
+    - apply str_eqb_eq in E. subst t. repeat split.
+    - rewrite orb_false_r in Hor. apply negb_true_iff in Hor.
+      destruct (last_char_some t) as [c Hc].
+      { apply tokenb_inv in Htok. tauto. }
+      unfold ends2 in Hor. rewrite Hc in Hor.
+      unfold fo_name, fo_conn, spec_name, spec_conn. rewrite Hc, Hor, E.
+      repeat split. exact Htok.
+  Qed.
+
+  Lemma elem_line_tokens : forall tn (r : row Z), tokenb tn = true ->
+    forallb tokenb (print_Z (fst r) :: S "1" :: tn :: map print_Z (snd r)) = true.
+  Proof.
+    intros tn r H. simpl. rewrite print_Z_token, H. simpl.
+    apply forallb_forall. intros x Hx. apply in_map_iff in Hx.
+    destruct Hx as [z [<- _]]. apply print_Z_token.
+  Qed.
+
+  Lemma parse_erow_line : forall tn (r : row Z), tokenb tn = true ->
+    parse_erow (elem_line tn r) = Ok (tn, r).
+  Proof.
+    intros tn [id conn] H. unfold parse_erow, Model.parse_row, elem_line.
+    rewrite tokens_unwords by (apply elem_line_tokens; exact H).
+    simpl fst. simpl snd. unfold nth_r. simpl nth_error. simpl of_opt. simpl bind.
+    rewrite parse_print_Z. simpl of_opt. simpl bind.
+    unfold pyslice. simpl skipn. rewrite mapO_parse_Z. reflexivity.
+  Qed.
+
+  Lemma strip_elem_line : forall tn (r : row Z), tokenb tn = true ->
+    strip (elem_line tn r) = elem_line tn r.
+  Proof.
+    intros tn r H. apply strip_unwords; [discriminate|apply elem_line_tokens; exact H].
+  Qed.
+
+  Definition elem_rows (obs : list (str * table Z)) : list (str * row Z) :=
+    flat_map (fun b => map (fun r => (spec_name (fst b), (fst r, spec_conn (fst b) (snd r))))
+                           (snd b)) obs.
+  Definition elem_lines (obs : list (str * table Z)) : list str :=
+    map (fun tr => elem_line (fst tr) (snd tr)) (elem_rows obs).
+
+  Lemma block_lines_ok : forall obs : list (str * table Z),
+    (forall b, In b obs -> type_ok ETYPES (fst b) = true) ->
+    (do ls <- mapM block_lines obs; Ok (concat ls)) = Ok (elem_lines obs).
+  Proof.
+    intros obs H.
+    assert (mapM block_lines obs
+            = Ok (map (fun b => map (fun r => elem_line (spec_name (fst b))
+                                               (fst r, spec_conn (fst b) (snd r))) (snd b)) obs)) as ->.
+    { rewrite <- (map_id obs) at 1. apply mapM_ok. intros b Hb.
+      destruct (type_ok_fo _ (H b Hb)) as [H1 [H2 _]].
+      unfold block_lines. rewrite H1. simpl bind. f_equal.
+      apply map_ext. intros r. rewrite H2. reflexivity. }
+    simpl bind. f_equal. unfold elem_lines, elem_rows.
+    clear H. induction obs as [|b obs IH]; simpl; [reflexivity|].
+    rewrite map_app, map_map, IH. reflexivity.
+  Qed.
+
+  Lemma elem_rows_types : forall obs tr,
+    (forall b, In b obs -> type_ok ETYPES (fst b) = true) ->
+    In tr (elem_rows obs) -> exists b, In b obs /\ fst tr = spec_name (fst b).
+  Proof.
+    intros obs tr _ Hin. unfold elem_rows in Hin. apply in_flat_map in Hin.
+    destruct Hin as [b [Hb Hin]]. apply in_map_iff in Hin. destruct Hin as [r [<- _]].
+    exists b. split; [exact Hb|reflexivity].
+  Qed.
+
+  Lemma read_elem_lines : forall obs,
+    (forall b, In b obs -> type_ok ETYPES (fst b) = true) ->
+    mapM parse_erow (elem_lines obs) = Ok (elem_rows obs).
+  Proof.
+    intros obs H. unfold elem_lines.
+    rewrite <- (map_id (elem_rows obs)) at 2. apply mapM_ok. intros [tn r] Hin.
+    destruct (elem_rows_types _ _ H Hin) as [b [Hb E]]. simpl in E. subst tn.
+    destruct (type_ok_fo _ (H b Hb)) as [_ [_ Htok]].
+    simpl fst. simpl snd. apply parse_erow_line. exact Htok.
+  Qed.
+
+  Lemma filter_const_key : forall (t k : str) (f : row Z -> row Z) (l : table Z),
+    map snd (filter (fun r : str * row Z => str_eqb (fst r) t) (map (fun r => (k, f r)) l))
+    = if str_eqb k t then map f l else [].
+  Proof.
+    intros t k f l. destruct (str_eqb k t) eqn:E; induction l as [|r l IH]; simpl;
+      try reflexivity; rewrite E; simpl; congruence.
+  Qed.
+
+  Lemma filter_elem_rows : forall t obs,
+    map snd (filter (fun r => str_eqb (fst r) t) (elem_rows obs))
+    = flat_map (fun b => if str_eqb (spec_name (fst b)) t
+                         then map (fun r => (fst r, spec_conn (fst b) (snd r))) (snd b)
+                         else []) obs.
+  Proof.
+    intros t obs. unfold elem_rows. induction obs as [|b obs IH]; [reflexivity|].
+    cbn [flat_map]. rewrite filter_app, map_app. f_equal; [|exact IH].
+    apply (filter_const_key t (spec_name (fst b))
+             (fun r => (fst r, spec_conn (fst b) (snd r)))).
+  Qed.
+
+  Lemma group_elem_rows : forall obs,
+    group_rows ETYPES (elem_rows obs)
+    = flat_map (fun t =>
+        match flat_map (fun b => if str_eqb (spec_name (fst b)) t
+                                 then map (fun r => (fst r, spec_conn (fst b) (snd r))) (snd b)
+                                 else []) obs with
+        | [] => []
+        | rs => [(t, rs)]
+        end) ETYPES.
+  Proof.
+    intros obs. unfold group_rows. apply flat_map_ext. intros t.
+    rewrite <- filter_elem_rows.
+    destruct (filter (fun r => str_eqb (fst r) t) (elem_rows obs)); reflexivity.
+  Qed.
+
+  Lemma mem_str_in : forall t l, In t l -> mem_str t l = true.
+  Proof.
+    intros t l H. unfold mem_str. apply existsb_exists. exists t. split; [exact H|apply str_eqb_refl].
+  Qed.
+
+  Lemma elem_rows_mem : forall obs,
+    mem_str (S "tet") ETYPES = true ->
+    (forall b, In b obs -> type_ok ETYPES (fst b) = true) ->
+    forallb (fun r : str * row Z => mem_str (fst r) ETYPES) (elem_rows obs) = true.
+  Proof.
+    intros obs Htet H. apply forallb_forall. intros tr Hin.
+    destruct (elem_rows_types _ _ H Hin) as [b [Hb ->]].
+    specialize (H b Hb). unfold spec_name. destruct (str_eqb (fst b) (S "tet2")); [exact Htet|].
+    unfold type_ok in H. rewrite !andb_true_iff in H. tauto.
+  Qed.
+
+  Lemma elem_rows_length : forall obs, length (elem_rows obs) = length (flat_map snd obs).
+  Proof.
+    unfold elem_rows. induction obs as [|b obs IH]; [reflexivity|].
+    cbn [flat_map]. rewrite !app_length, map_length. f_equal. exact IH.
+  Qed.
+
+  Lemma ea_table_length {X} : forall bs : list (str * table X),
+    length (ea_table ETYPES bs) = length (flat_map snd (ordered_blocks ETYPES bs)).
+  Proof.
+    intros bs. unfold ea_table.
+    destruct (ordered_blocks ETYPES bs) as [|[t tb] [|b2 rest]].
+    - reflexivity.
+    - simpl. rewrite app_nil_r. reflexivity.
+    - rewrite sort_rows_length. reflexivity.
+  Qed.
+
+  Lemma assoc_in {X} : forall t (bs : list (str * X)) x, assoc t bs = Some x -> In (t, x) bs.
+  Proof.
+    induction bs as [|[k y] bs IH]; simpl; intros x H; [discriminate|].
+    destruct (str_eqb k t) eqn:E.
+    - apply str_eqb_eq in E. inversion H; subst. left. reflexivity.
+    - right. apply IH. exact H.
+  Qed.
+
+  Lemma ordered_blocks_in {X} : forall (bs : list (str * table X)) b,
+    In b (ordered_blocks ETYPES bs) -> In b bs.
+  Proof.
+    intros bs b H. unfold ordered_blocks in H. apply in_flat_map in H.
+    destruct H as [t [_ H]]. destruct (assoc t bs) eqn:E; [|contradiction].
+    destruct H as [<-|[]]. apply assoc_in. exact E.
+  Qed.
+
+  (* ------------------------------------------------------- a data block *)
+  Definition block_body (ids : list Z) (vars : list (str * table V)) : list str :=
+    unwords (map print_nat (length vars :: widths vars))
+      :: map (fun v => fst v ++ unit_suffix) vars
+      ++ map data_line (rows_of ids (map snd vars)).
+  Definition block_canon (ids : list Z) (vars : list (str * table V)) : list str :=
+    match vars with [] => [] | _ => block_body ids vars end.
+  Arguments block_body : simpl never.
+
+  Lemma data_block_ok : forall by_id ids (vars : list (str * table V)),
+    (by_id = true /\ forall v, In v vars -> forall id, In id ids -> exists r, lookup id (snd v) = Some r)
+    \/ (NoDup ids /\ forall v, In v vars -> map fst (snd v) = ids) ->
+    data_block V vprint by_id ids vars = Ok (block_canon ids vars).
+  Proof.
+    intros by_id ids vars H.
+    assert (bind_rows V by_id ids (map snd vars) = Ok (rows_of ids (map snd vars))) as E.
+    { destruct H as [[-> H]|[Hnd H]].
+      - apply bind_rows_by_id. intros tb Htb id Hid. apply in_map_iff in Htb.
+        destruct Htb as [v [<- Hv]]. apply (H v Hv id Hid).
+      - destruct by_id.
+        + apply bind_rows_by_id. intros tb Htb id Hid. apply in_map_iff in Htb.
+          destruct Htb as [v [<- Hv]]. apply lookup_in_ids. rewrite (H v Hv).
+          apply existsb_exists. exists id. split; [exact Hid|apply Z.eqb_refl].
+        + apply bind_rows_positional; [exact Hnd|]. intros tb Htb. apply in_map_iff in Htb.
+          destruct Htb as [v [<- Hv]]. apply (H v Hv). }
+    unfold data_block, block_canon. destruct vars as [|v0 vars0]; [reflexivity|].
+    rewrite E. simpl bind. unfold block_body, widths. simpl map. rewrite map_map. reflexivity.
+  Qed.
+
+  Lemma sum_widths_zero : forall vars : list (str * table V),
+    (forall v, In v vars -> 0 < width (snd v)) ->
+    Nat.eqb (sum (widths vars)) 0 = match vars with [] => true | _ => false end.
+  Proof.
+    intros [|v vars] H; [reflexivity|]. simpl.
+    specialize (H v (or_introl eq_refl)). destruct (width (snd v)) eqn:E; [lia|reflexivity].
+  Qed.
+
+  Lemma block_body_length : forall ids vars,
+    length (block_body ids vars) = 1 + length vars + length ids.
+  Proof.
+    intros ids vars. unfold block_body.
+    simpl length. rewrite app_length, !map_length. unfold rows_of. rewrite map_length.
+    reflexivity.
+  Qed.
+
+  Lemma strip_block_body : forall ids vars,
+    (forall v, In v vars -> name_ok (fst v) = true) ->
+    map strip (block_body ids vars) = block_body ids vars.
+  Proof.
+    intros ids vars H. unfold block_body. simpl map at 1. rewrite map_app. f_equal.
+    - apply strip_unwords; [discriminate|apply nat_tokens].
+    - f_equal.
+      + rewrite map_map. apply map_ext_in. intros v Hv. apply strip_name_line. apply H. exact Hv.
+      + rewrite map_map. apply map_ext. intros r. apply strip_data_line.
+  Qed.
+
+  Lemma strip_block_canon : forall ids vars,
+    (forall v, In v vars -> name_ok (fst v) = true) ->
+    map strip (block_canon ids vars) = block_canon ids vars.
+  Proof.
+    intros ids vars H. unfold block_canon. destruct vars; [reflexivity|].
+    apply strip_block_body. exact H.
+  Qed.
+
+  (* header + names + rows of a block found at offset |Q| of the file *)
+  Lemma read_block_ok : forall (F Q R : list str) ids (vars : list (str * table V)) name_start,
+    (forall v, In v vars -> name_ok (fst v) = true) ->
+    (forall v, In v vars -> forall id, In id ids -> length (get id (snd v)) = width (snd v)) ->
+    F = Q ++ block_body ids vars ++ R ->
+    name_start = length Q + 1 ->
+    (do l <- line_at (length Q) F; count_dims l) = Ok (length vars, widths vars)
+    /\ (do names <- read_names (slice name_start (name_start + length vars) F);
+        read_assoc V vparse
+          (slice (name_start + length vars) (name_start + length vars + length ids) F) 1
+          (combine names (widths vars)))
+       = Ok (map (fun v => (fst v, reindex V ids (snd v))) vars).
+  Proof.
+    intros F Q R ids vars name_start Hnames Hw HF ->.
+    unfold block_body in HF.
+    set (hdr := unwords (map print_nat (length vars :: widths vars))) in *.
+    set (names := map (fun v => fst v ++ unit_suffix) vars) in *.
+    set (rows := map data_line (rows_of ids (map snd vars))) in *.
+    split.
+    - unfold line_at. rewrite (nth_mid F Q hdr ((names ++ rows) ++ R)).
+      + simpl of_opt. simpl bind. unfold count_dims, hdr. rewrite parse_ints_unwords. reflexivity.
+      + rewrite HF. norm_app.
+      + reflexivity.
+    - rewrite (slice_mid F (Q ++ [hdr]) names (rows ++ R)).
+      + unfold names. rewrite read_names_ok by exact Hnames. simpl bind.
+        rewrite (slice_mid F ((Q ++ [hdr]) ++ names) rows R).
+        * unfold rows. change (widths vars) with (widths ([] ++ vars)) at 1.
+          change 1 with (1 + sum (widths (@nil (str * table V)))).
+          change (map snd vars) with (map snd ([] ++ vars)).
+          apply read_assoc_ok. exact Hw.
+        * rewrite HF. norm_app.
+        * rewrite !app_length. unfold names. rewrite map_length. simpl. reflexivity.
+        * unfold rows, rows_of. rewrite !map_length. reflexivity.
+      + rewrite HF. norm_app.
+      + rewrite app_length. simpl. lia.
+      + unfold names. rewrite map_length. reflexivity.
+  Qed.
+
+  (* ---------------------------------------------------- the whole file *)
+  Lemma var_ok_inv : forall ids (v : str * table V),
+    var_ok V ids v = true ->
+    name_ok (fst v) = true /\ 0 < width (snd v)
+    /\ (forall id, In id ids -> exists r, lookup id (snd v) = Some r)
+    /\ (forall id, In id ids -> length (get id (snd v)) = width (snd v)).
+  Proof.
+    intros ids v H. unfold var_ok, same_ids in H. rewrite !andb_true_iff in H.
+    destruct H as [[[Hn Hw] Hr] [[_ _] Hi]].
+    assert (forall id, In id ids -> exists r, lookup id (snd v) = Some r) as HL.
+    { intros id Hid. apply lookup_in_ids. apply (forallb_In _ _ Hi id Hid). }
+    repeat split; [exact Hn|apply Nat.ltb_lt; exact Hw|exact HL|].
+    intros id Hid. destruct (HL id Hid) as [r Hr']. unfold get. rewrite Hr'.
+    apply lookup_some_in in Hr'. unfold rect in Hr.
+    apply Nat.eqb_eq. apply (forallb_In _ _ Hr (id, r) Hr').
+  Qed.
+
+  Definition canonical_file (nodes : table V) (obs : list (str * table Z)) (eids : list Z)
+             (nv ev : list (str * table V)) : list str :=
+    unwords (map print_nat [length nodes; length eids; sum (widths nv); sum (widths ev); 0])
+      :: map data_line nodes ++ elem_lines obs
+      ++ block_canon (map fst nodes) nv ++ block_canon eids ev.
+
+  Definition spec_groups (obs : list (str * table Z)) : list (str * table Z) :=
+    flat_map (fun t =>
+      match flat_map (fun b => if str_eqb (spec_name (fst b)) t
+                               then map (fun r => (fst r, spec_conn (fst b) (snd r))) (snd b)
+                               else []) obs with
+      | [] => []
+      | rs => [(t, rs)]
+      end) ETYPES.
+
+  Lemma strip_canonical : forall nodes obs eids nv ev,
+    (forall b, In b obs -> type_ok ETYPES (fst b) = true) ->
+    (forall v, In v nv -> name_ok (fst v) = true) ->
+    (forall v, In v ev -> name_ok (fst v) = true) ->
+    map strip (canonical_file nodes obs eids nv ev) = canonical_file nodes obs eids nv ev.
+  Proof.
+    intros nodes obs eids nv ev Hobs Hnv Hev. unfold canonical_file.
+    simpl map at 1. rewrite !map_app. f_equal; [|f_equal; [|f_equal; [|f_equal]]].
+    - apply strip_unwords; [discriminate|apply nat_tokens].
+    - rewrite map_map. apply map_ext. intros r. apply strip_data_line.
+    - unfold elem_lines. rewrite map_map. apply map_ext_in. intros tr Hin.
+      destruct (elem_rows_types _ _ Hobs Hin) as [b [Hb E]].
+      destruct (type_ok_fo _ (Hobs b Hb)) as [_ [_ Htok]].
+      apply strip_elem_line. rewrite E. exact Htok.
+    - apply strip_block_canon. exact Hnv.
+    - apply strip_block_canon. exact Hev.
+  Qed.
+
+  Lemma read_canonical : forall nodes obs eids nv ev,
+    (forall b, In b obs -> type_ok ETYPES (fst b) = true) ->
+    mem_str (S "tet") ETYPES = true ->
+    length eids = length (flat_map snd obs) ->
+    (forall v, In v nv -> var_ok V (map fst nodes) v = true) ->
+    (forall v, In v ev -> var_ok V eids v = true) ->
+    read_ucd V vparse ETYPES (canonical_file nodes obs eids nv ev)
+    = Ok {| u_nodes := nodes;
+            u_elems := spec_groups obs;
+            u_nodal := upsert NODE nodes
+                         (map (fun v => (fst v, reindex V (map fst nodes) (snd v))) nv);
+            u_elemental := map (fun v => (fst v, reindex V eids (snd v))) ev |}.
+  Proof.
+    intros nodes obs eids nv ev Hobs Htet Hlen Hnv Hev.
+    assert (forall v, In v nv -> name_ok (fst v) = true) as Hnv1
+      by (intros v Hv; apply (var_ok_inv _ _ (Hnv v Hv))).
+    assert (forall v, In v ev -> name_ok (fst v) = true) as Hev1
+      by (intros v Hv; apply (var_ok_inv _ _ (Hev v Hv))).
+    assert (forall v, In v nv -> 0 < width (snd v)) as Hnv2
+      by (intros v Hv; apply (var_ok_inv _ _ (Hnv v Hv))).
+    assert (forall v, In v ev -> 0 < width (snd v)) as Hev2
+      by (intros v Hv; apply (var_ok_inv _ _ (Hev v Hv))).
+    assert (forall v, In v nv -> forall id, In id (map fst nodes) ->
+                      length (get id (snd v)) = width (snd v)) as Hnv3
+      by (intros v Hv; apply (var_ok_inv _ _ (Hnv v Hv))).
+    assert (forall v, In v ev -> forall id, In id eids ->
+                      length (get id (snd v)) = width (snd v)) as Hev3
+      by (intros v Hv; apply (var_ok_inv _ _ (Hev v Hv))).
+    unfold read_ucd. rewrite strip_canonical by assumption.
+    unfold canonical_file.
+    match goal with |- context [(@length ?T nodes) :: _] => set (n := @length T nodes) end.
+    set (e := length eids).
+    set (NL := map data_line nodes). set (EL := elem_lines obs).
+    set (BN := block_canon (map fst nodes) nv). set (BE := block_canon eids ev).
+    set (dn := sum (widths nv)). set (de := sum (widths ev)).
+    set (h0 := unwords (map print_nat [n; e; dn; de; 0])).
+    set (F := h0 :: NL ++ EL ++ BN ++ BE).
+    assert (length NL = n) as HLN by (unfold NL; apply map_length).
+    assert (length EL = e) as HLE.
+    { unfold EL, elem_lines. rewrite map_length, elem_rows_length. symmetry. exact Hlen. }
+    assert (length (map fst nodes) = n) as HLI by apply map_length.
+    set (P := h0 :: NL ++ EL).
+    assert (length P = n + e + 1) as HLP.
+    { unfold P. simpl. rewrite app_length, HLN, HLE. lia. }
+    assert (length BN = match nv with [] => 0 | _ => 1 + length nv + n end) as HLBN.
+    { unfold BN, block_canon. destruct nv; [reflexivity|]. rewrite block_body_length, HLI. reflexivity. }
+    assert (Nat.eqb dn 0 = match nv with [] => true | _ => false end) as Hdn
+      by (apply sum_widths_zero; exact Hnv2).
+    assert (Nat.eqb de 0 = match ev with [] => true | _ => false end) as Hde
+      by (apply sum_widths_zero; exact Hev2).
+    (* ---- headers *)
+    assert (read_headers F =
+            Ok {| n_node := n; n_element := e; all_dn := dn; all_de := de;
+                  n_nodal := length nv;
+                  nodal_dims := match nv with [] => [0] | _ => widths nv end;
+                  n_elemental := length ev;
+                  elemental_dims := match ev with [] => [0] | _ => widths ev end |}) as HH.
+    { unfold read_headers. unfold line_at at 1. unfold F at 1. simpl nth_error. simpl of_opt.
+      simpl bind. unfold h0. rewrite parse_ints_unwords. simpl bind.
+      unfold nth_r. simpl nth_error. simpl of_opt. simpl bind.
+      rewrite Hdn, Hde.
+      assert ((match nv with
+               | [] => Ok (0, [0])
+               | _ => do l <- line_at (n + e + 1) F; count_dims l
+               end) = Ok (length nv, match nv with [] => [0] | _ => widths nv end)) as E1.
+      { destruct nv as [|v0 nv0]; [reflexivity|].
+        rewrite <- HLP.
+        apply (read_block_ok F P BE (map fst nodes) (v0 :: nv0) (length P + 1) Hnv1 Hnv3).
+        - unfold F, P, BN, block_canon. norm_app.
+        - reflexivity. }
+      destruct nv as [|v0 nv0].
+      - simpl bind. simpl fst. simpl snd.
+        destruct ev as [|w0 ev0]; [reflexivity|].
+        match goal with |- context [line_at ?i F] =>
+          replace i with (length P) by (rewrite HLP; simpl; lia) end.
+        rewrite (proj1 (read_block_ok F P [] eids (w0 :: ev0) (length P + 1) Hev1 Hev3
+                          ltac:(unfold F, P, BN, BE, block_canon; norm_app) eq_refl)).
+        reflexivity.
+      - rewrite E1. simpl bind. simpl fst. simpl snd.
+        destruct ev as [|w0 ev0]; [reflexivity|].
+        set (Q := P ++ BN).
+        match goal with |- context [line_at ?i F] => replace i with (length Q) end.
+        2:{ unfold Q. rewrite app_length, HLP, HLBN. simpl. lia. }
+        rewrite (proj1 (read_block_ok F Q [] eids (w0 :: ev0) (length Q + 1) Hev1 Hev3
+                          ltac:(unfold F, Q, P, BE, block_canon; norm_app) eq_refl)).
+        reflexivity. }
+    rewrite HH. simpl bind.
+    (* ---- nodes *)
+    assert (read_nodes V vparse F
+              {| n_node := n; n_element := e; all_dn := dn; all_de := de;
+                 n_nodal := length nv;
+                 nodal_dims := match nv with [] => [0] | _ => widths nv end;
+                 n_elemental := length ev;
+                 elemental_dims := match ev with [] => [0] | _ => widths ev end |}
+            = Ok nodes) as HN.
+    { unfold read_nodes. simpl n_node.
+      rewrite (slice_mid F [h0] NL (EL ++ BN ++ BE)).
+      - unfold NL. rewrite <- (map_id nodes) at 2. apply mapM_ok. intros r _. apply parse_row_all.
+      - reflexivity.
+      - reflexivity.
+      - rewrite HLN. simpl. lia. }
+    rewrite HN. simpl bind.
+    (* ---- elements *)
+    assert (read_elements ETYPES F
+              {| n_node := n; n_element := e; all_dn := dn; all_de := de;
+                 n_nodal := length nv;
+                 nodal_dims := match nv with [] => [0] | _ => widths nv end;
+                 n_elemental := length ev;
+                 elemental_dims := match ev with [] => [0] | _ => widths ev end |}
+            = Ok (spec_groups obs)) as HE.
+    { unfold read_elements. simpl n_node. simpl n_element.
+      rewrite (slice_mid F (h0 :: NL) EL (BN ++ BE)).
+      - unfold EL. rewrite read_elem_lines by exact Hobs. simpl bind.
+        rewrite elem_rows_mem by assumption. rewrite group_elem_rows. reflexivity.
+      - unfold F. norm_app.
+      - simpl. rewrite HLN. lia.
+      - rewrite HLE. reflexivity. }
+    rewrite HE. simpl bind.
+    (* ---- nodal data *)
+    assert (read_nodal_data V vparse F
+              {| n_node := n; n_element := e; all_dn := dn; all_de := de;
+                 n_nodal := length nv;
+                 nodal_dims := match nv with [] => [0] | _ => widths nv end;
+                 n_elemental := length ev;
+                 elemental_dims := match ev with [] => [0] | _ => widths ev end |}
+            = Ok (map (fun v => (fst v, reindex V (map fst nodes) (snd v))) nv)) as HND.
+    { unfold read_nodal_data. simpl all_dn. simpl n_node. simpl n_element. simpl n_nodal.
+      simpl nodal_dims. rewrite Hdn.
+      destruct nv as [|v0 nv0]; [reflexivity|].
+      replace (n + 1 + e + 1) with (length P + 1) by (rewrite HLP; lia).
+      rewrite <- HLI.
+      apply (read_block_ok F P BE (map fst nodes) (v0 :: nv0) (length P + 1) Hnv1 Hnv3).
+      - unfold F, P, BN, block_canon. norm_app.
+      - reflexivity. }
+    rewrite HND. simpl bind.
+    (* ---- elemental data *)
+    assert (read_elemental_data V vparse F
+              {| n_node := n; n_element := e; all_dn := dn; all_de := de;
+                 n_nodal := length nv;
+                 nodal_dims := match nv with [] => [0] | _ => widths nv end;
+                 n_elemental := length ev;
+                 elemental_dims := match ev with [] => [0] | _ => widths ev end |}
+            = Ok (map (fun v => (fst v, reindex V eids (snd v))) ev)) as HED.
+    { unfold read_elemental_data. simpl all_de. simpl all_dn. simpl n_node. simpl n_element.
+      simpl n_nodal. simpl n_elemental. simpl elemental_dims. rewrite Hde.
+      destruct ev as [|w0 ev0]; [reflexivity|].
+      set (Q := P ++ BN).
+      replace (n + 1 + e + 1 + Nat.min 1 dn * (length nv + n + 1)) with (length Q + 1).
+      2:{ unfold Q. rewrite app_length, HLP, HLBN.
+          destruct nv as [|v0 nv0].
+          - unfold dn. simpl. lia.
+          - destruct dn as [|dn']; [simpl in Hdn; discriminate|]. simpl. lia. }
+      apply (read_block_ok F Q [] eids (w0 :: ev0) (length Q + 1) Hev1 Hev3).
+      - unfold F, Q, P, BE, block_canon. norm_app.
+      - reflexivity. }
+    rewrite HED. simpl bind. reflexivity.
+  Qed.
+
+  (* ------------------------------------------------------ write, then read *)
+  Notation wf := (wf V ETYPES).
+  Notation aligned := (aligned V ETYPES).
+  Notation elem_ids := (elem_ids V ETYPES).
+  Notation nodal_2d := (nodal_2d V).
+  Notation elemental_2d := (elemental_2d V ETYPES).
+
+  Lemma wf_inv : forall m : mesh, wf m = true ->
+    nodupZ (map fst (m_nodes V m)) = true
+    /\ forallb (type_ok ETYPES) (map fst (m_elems V m)) = true
+    /\ nodupZ (elem_ids m) = true
+    /\ mem_str (S "tet") ETYPES = true
+    /\ forallb (var_ok V (map fst (m_nodes V m))) (nodal_2d m) = true
+    /\ forallb (var_ok V (elem_ids m)) (elemental_2d m) = true.
+  Proof. intros m H. unfold Model.wf in H. rewrite !andb_true_iff in H. tauto. Qed.
+
+  Lemma obs_types : forall m : mesh, wf m = true ->
+    forall b, In b (ordered_blocks ETYPES (m_elems V m)) -> type_ok ETYPES (fst b) = true.
+  Proof.
+    intros m H b Hb. apply wf_inv in H. destruct H as [_ [H _]].
+    apply ordered_blocks_in in Hb. apply (forallb_In _ _ H). apply in_map. exact Hb.
+  Qed.
+
+  Definition file_of (m : mesh) : list str :=
+    canonical_file (m_nodes V m) (ordered_blocks ETYPES (m_elems V m)) (elem_ids m)
+                   (nodal_2d m) (elemental_2d m).
+
+  Lemma write_canonical : forall cfg (m : mesh),
+    wf m = true -> cfg_ok cfg = true \/ aligned m = true ->
+    write_ucd V vprint ETYPES cfg m = Ok (file_of m).
+  Proof.
+    intros cfg m Hwf Hmode. pose proof (obs_types m Hwf) as Hobs.
+    destruct (wf_inv m Hwf) as [Hn [_ [He [_ [Hnv Hev]]]]].
+    unfold write_ucd, file_of, canonical_file.
+    pose proof (block_lines_ok _ Hobs) as HB.
+    destruct (mapM block_lines (ordered_blocks ETYPES (m_elems V m))) as [ls|] eqn:E;
+      [|discriminate HB]. simpl in HB. injection HB as HB. simpl bind.
+    assert (data_block V vprint (nodal_by_id cfg) (map fst (m_nodes V m)) (nodal_2d m)
+            = Ok (block_canon (map fst (m_nodes V m)) (nodal_2d m))) as ->.
+    { apply data_block_ok. destruct Hmode as [Hc|Ha].
+      - left. unfold cfg_ok in Hc. apply andb_true_iff in Hc. split; [tauto|].
+        intros v Hv. apply (var_ok_inv _ _ (forallb_In _ _ Hnv v Hv)).
+      - right. split; [apply nodupZ_NoDup; exact Hn|]. intros v Hv.
+        unfold Model.aligned in Ha. apply andb_true_iff in Ha. destruct Ha as [Ha _].
+        apply (list_eqb_spec Z.eqb Z.eqb_eq). apply (forallb_In _ _ Ha v Hv). }
+    assert (data_block V vprint (elemental_by_id cfg) (elem_ids m) (elemental_2d m)
+            = Ok (block_canon (elem_ids m) (elemental_2d m))) as ->.
+    { apply data_block_ok. destruct Hmode as [Hc|Ha].
+      - left. unfold cfg_ok in Hc. apply andb_true_iff in Hc. split; [tauto|].
+        intros v Hv. apply (var_ok_inv _ _ (forallb_In _ _ Hev v Hv)).
+      - right. split; [apply nodupZ_NoDup; exact He|]. intros v Hv.
+        unfold Model.aligned in Ha. apply andb_true_iff in Ha. destruct Ha as [_ Ha].
+        apply (list_eqb_spec Z.eqb Z.eqb_eq). apply (forallb_In _ _ Ha v Hv). }
+    simpl bind. rewrite HB. reflexivity.
+  Qed.
+
+  Lemma read_file_of : forall m : mesh, wf m = true ->
+    read_ucd V vparse ETYPES (file_of m) = Ok (first_order V ETYPES m).
+  Proof.
+    intros m Hwf. pose proof (obs_types m Hwf) as Hobs.
+    destruct (wf_inv m Hwf) as [_ [_ [_ [Htet [Hnv Hev]]]]].
+    unfold file_of. rewrite read_canonical.
+    - reflexivity.
+    - exact Hobs.
+    - exact Htet.
+    - unfold Model.elem_ids. rewrite map_length. apply ea_table_length.
+    - apply forallb_In. exact Hnv.
+    - apply forallb_In. exact Hev.
+  Qed.
+
+  Theorem roundtrip_ok : forall cfg (m : mesh),
+    wf m = true -> cfg_ok cfg = true \/ aligned m = true ->
+    roundtrip V vprint vparse ETYPES cfg m = Ok (first_order V ETYPES m).
+  Proof.
+    intros cfg m Hwf Hmode. unfold roundtrip. rewrite (write_canonical cfg m Hwf Hmode).
+    simpl bind. apply read_file_of. exact Hwf.
+  Qed.
 End UCDProofs.
+
+(* ------------------------------------------- reading the specification *)
+Section SpecFacts.
+  Variable V : Type.
+  Variable ETYPES : list str.
+
+  Lemma lookup_reindex : forall ids (tb : table V) id,
+    In id ids -> lookup id (reindex V ids tb) = Some (get id tb).
+  Proof.
+    induction ids as [|i ids IH]; intros tb id H; [contradiction|].
+    simpl. destruct (Z.eqb_spec i id); [subst; reflexivity|].
+    destruct H as [H|H]; [contradiction|]. apply IH. exact H.
+  Qed.
+
+  Lemma upsert_keys {X} : forall k (x : X) l k',
+    In k' (map fst l) -> In k' (map fst (upsert k x l)).
+  Proof.
+    induction l as [|[a y] l IH]; intros k' H; [contradiction|].
+    simpl. destruct (str_eqb a k); simpl in *; [exact H|].
+    destruct H as [H|H]; [left; exact H|right; apply IH; exact H].
+  Qed.
+End SpecFacts.
